@@ -68,6 +68,11 @@ def run(m, rep, tier):
                 continue
             v = f.get(s.o[0])
             site = '%s:size-store' % f.name
+            from .util import swap_coverage
+            cov = swap_coverage(m, f)
+            if cov is not None and cov[2] and not cov[3] and not cov[4]:
+                w3.ok(site, 'part of a complete exchange of two trees: size travels with the root (W8)', s.loc())
+                continue
             if const_int(s.o[0]) == 0:
                 w3.ok(site, ':= 0', s.loc())
             elif unit_step(f, s.o[0])[1]:
@@ -328,18 +333,44 @@ def check_insert_slot(m, f, rule):
         rule.violation('cstl_bintree_insert', 'the new node is never linked into the tree', floc(m, f), {})
         return
     bad = []
+    quick = True
     for s in links:
         slot = strip_bitcasts(f, s.o[1])
-        ok = False
-        for (op, x, y) in pv.facts_at(s):
-            if op == 'eq' and y == 'null':
-                if _reads_slot(f, x, slot):
-                    ok = True
-        if not ok:
-            bad.append('the new node is stored at %s into a link that was not just read as NULL: an existing subtree hanging there would be cut out of the '
-                       'tree while size still counts it' % s.loc())
+        if not any(op == 'eq' and y == 'null' and _reads_slot(f, x, slot) for (op, x, y) in pv.facts_at(s)):
+            quick = False
+    if not quick:
+        # path-sensitive: on every path to the link store, the slot written (as bound on that path) is the address from
+        # which a value known to be NULL was last read
+        def transfer(ins, st, ps):
+            if ins.op == 'call' and ins.x.get('noreturn'):
+                return None
+            if ins.op in ('inttoptr', 'getelementptr'):
+                base = _ptr_base(f, ins)
+                if base is not None and ps.knows(('ne', _k(base), 'null')) is True:
+                    return typestate.With(st, atoms=[('ne', _k(ins.ref), 'null')])
+            if ins in links:
+                slot = ps.lookup(_k(strip_bitcasts(f, ins.o[1])))
+                ok = False
+                for (op, x, y) in ps.known:
+                    if op != 'eq' or y != 'null':
+                        continue
+                    xi = f.get(x) if isinstance(x, str) else None
+                    if xi is not None and xi.op == 'load' and ps.lookup(_k(strip_bitcasts(f, xi.o[0]))) == slot:
+                        ok = True
+                if not ok:
+                    bad.append('the new node is stored at %s into a link that was not just read as NULL: an existing subtree hanging there would be cut out '
+                               'of the tree while size still counts it' % ins.loc())
+            return st
+        try:
+            res = typestate.run(f, 0, transfer, limit=60000)
+            if not res.exits:
+                rule.undecided('cstl_bintree_insert', 'no return reached', floc(m, f))
+                return
+        except typestate.Limit as e:
+            rule.undecided('cstl_bintree_insert', str(e), floc(m, f))
+            return
     if bad:
-        rule.violation('cstl_bintree_insert', '; '.join(bad), floc(m, f), {})
+        rule.violation('cstl_bintree_insert', '; '.join(sorted(set(bad))), floc(m, f), {})
     else:
         rule.ok('cstl_bintree_insert', '%d link store(s), each into a slot read as NULL' % len(links), floc(m, f))
 
